@@ -742,11 +742,19 @@ func Generate(r *rand.Rand, budget int) Program {
 		}
 	}
 	stmts = append(stmts, g.list(top, 3+r.Intn(5), nil, 0, false, "")...)
-	// epilogue: dump the observable global state
+	// epilogue: dump the observable global state (half of the programs; the others end on
+	// whatever statement came last, so that the program's completion value is not always log's undefined)
+	epilogue := r.Intn(2) == 0
 	for _, v := range []string{"g0", "g1", "g2"} {
+		if !epilogue {
+			break
+		}
 		stmts = append(stmts, node{"log(" + v + ");", "(JExpr (XLog (XVar " + cstr(v) + ")))"})
 	}
 	for _, o := range top.objs {
+		if !epilogue {
+			break
+		}
 		for _, f := range []string{"a", "b"} {
 			stmts = append(stmts, node{"log(" + o + " && " + o + "." + f + ");", fmt.Sprintf("(JExpr (XLog (XAnd (XVar %s) (XGet (XVar %s) %s))))", cstr(o), cstr(o), cstr(f))})
 		}
